@@ -82,8 +82,12 @@ InitDims == \E s \in DUnits, a4 \in Starts3, n \in 1..MaxN, ir \in {0, 1} :
                     /\ (how = "est" => ir = 0 /\ n >= 2)                    \* estimate_dim_step refuses an irregular array
                     /\ c = D(fn, s, a4, n, ir, <<>>, TRUE, TRUE, how, name, "")
 
+(* ----------------------------------------------------------------- wfill *)
+InitWFill == \E n \in 1..3, extra \in 1..5, pos \in {"start", "center", "end"}, f \in {<<-1, 1>>, <<7, 1>>, <<1, 2>>, <<0, 1>>}, fn \in {"adjust", "direct"} :
+                c = [kind |-> "wfill", s |-> <<1, 4>>, a4 |-> 14, n |-> n, w |-> n + extra, pos |-> pos, fill |-> f, fn |-> fn]
+
 Init == /\ pc = "in" /\ S = {}
-        /\ (InitAlg \/ InitDb \/ InitResize \/ InitAdjust \/ InitDims)
+        /\ (InitAlg \/ InitDb \/ InitResize \/ InitAdjust \/ InitDims \/ InitWFill)
 
 Compute   == pc = "in" /\ c.kind # "adjust" /\ pc' = "out" /\ UNCHANGED <<c, S>>
 \* adjust_dim_range: first the start side, then the stop side, each a crop or an extend of what is there
@@ -145,5 +149,6 @@ LawStepOutcome == (c.kind = "dims" /\ c.fn \in {"get_step", "est_step"}) =>
                     LET e == StepOutcome(c) IN
                     /\ (e[1] = "val" /\ IsNone(c.attr) /\ c.ir = 0) => REq(e[2], c.s)        \* a regular axis: the estimate is the step
                     /\ (~IsNone(c.attr)) => e[1] = "val"                                     \* a recorded step always wins
+LawWFillOffs == c.kind = "wfill" => \A off \in Offs(c.pos, c.w - c.n) : off >= 0 /\ off + c.n <= c.w
 Terminates == <>(pc = "out")
 =============================================================================
